@@ -657,9 +657,22 @@ func handleQueryCustom(app *BaseApp, path []string, req abci.RequestQuery) (res 
 			),
 		).QueryResult()
 	}
+	// Queriers run on the header that the node's other off-chain entry points (PocketCoreApp.NewContext) and the
+	// historical contexts of block execution (PrevCtx) carry for the latest height: the one rebuilt from the block
+	// store. The check-state header is the raw ABCI header of the same block; the two differ in
+	// LastBlockId.PartsHeader, so a session generated from the raw header (dispatch / relay / challenge queries in
+	// the first block of a session) has another block hash, hence other nodes, than the session claim validation
+	// regenerates, and it would be put into the session cache that claim validation reads.
+	header := app.checkState.ctx.BlockHeader()
+	if bs := app.checkState.ctx.BlockStore(); bs != nil {
+		latestCtx, err := sdk.NewContext(app.cms, abci.Header{}, true, app.logger).WithBlockStore(bs).PrevCtx(header.Height)
+		if err == nil {
+			header = latestCtx.BlockHeader()
+		}
+	}
 	// cache wrap the commit-multistore for safety
 	ctx := sdk.NewContext(
-		newMS, app.checkState.ctx.BlockHeader(), true, app.logger,
+		newMS, header, true, app.logger,
 	).WithBlockStore(app.checkState.ctx.BlockStore()).WithAppVersion(app.appVersion)
 	// The store behind this context is a lazily loaded (usually historical) version. Flag the context
 	// accordingly so that the keepers' node-local object caches, which block execution consults, are
